@@ -18,7 +18,7 @@ def _J(n):
 
 
 def _E(h, d):
-    return d.expo() if h.is_sym() else np.exp(d)
+    return h.expo(d)
 
 
 def _interior(h, name, n):
